@@ -76,7 +76,16 @@ def case_s(draw) -> dict[str, Any]:
         runs[k]["url"], runs[k]["name"] = runs[0]["url"], runs[0]["name"]
         target = 0
         select = draw(st.sampled_from(["name", "name+props"]))
-    return {"runs": runs, "target": target, "select": select, "allow_silence_in_state": False}
+    if n > 1 and len({r["url"] for r in runs}) == n and draw(st.integers(0, 3)) == 0:
+        # the target ECU is also reachable under a second address (a short probe was recorded there earlier): selection by ECU
+        # name has to cover all addresses of that ECU
+        t = draw(st.integers(1, n - 1))
+        runs[0]["name"] = runs[t]["name"]
+        runs[0]["ops"] = [("tp", False)]
+        runs[0]["seed"], runs[0]["params"], runs[0]["flaky"] = runs[t]["seed"], runs[t]["params"], runs[t]["flaky"]
+        target = t
+        select = "name"
+    return {"runs": runs, "target": target, "select": select, "allow_silence_in_state": False, "share_handler": n > 1 and draw(st.integers(0, 3)) == 0}
 
 
 def make_recorded_ecu(run: dict[str, Any]) -> Any:
@@ -118,7 +127,44 @@ def make_recorded_ecu(run: dict[str, Any]) -> Any:
     return RebootingLevelECU(run["seed"], rp, beh)
 
 
+def _register_name(dbpath: Path, run: dict[str, Any]) -> None:
+    """register the ECU name for this address, as the documentation of `vecu db` prescribes"""
+    con = sqlite3.connect(dbpath)
+    if con.execute("SELECT count(*) FROM ecu WHERE name = ?", (run["name"],)).fetchone()[0] == 0:
+        con.execute("INSERT INTO ecu(name) VALUES(?)", (run["name"],))
+    con.execute("UPDATE address SET ecu = (SELECT id FROM ecu WHERE name = ?) WHERE url = ?", (run["name"], run["url"]))
+    con.commit()
+    con.close()
+
+
+def record_shared(dbpath: Path, runs: list[dict[str, Any]], allow_silence_in_state: bool) -> list[dict[str, Any]]:
+    """All runs through ONE database handler in one process (a test bench that scans several ECUs one after the other)."""
+    from gallia.db.handler import DBHandler
+
+    outs: list[dict[str, Any]] = []
+
+    async def go_all() -> None:
+        db = DBHandler(dbpath)
+        await db.connect()
+        try:
+            for i, run in enumerate(runs):
+                outs.append(await _record_async(dbpath, run, allow_silence_in_state, db, first=(i == 0)))
+        finally:
+            await db.disconnect()
+
+    asyncio.run(go_all())
+    for run in runs:
+        _register_name(dbpath, run)
+    return outs
+
+
 def record(dbpath: Path, run: dict[str, Any], allow_silence_in_state: bool) -> dict[str, Any]:
+    out = asyncio.run(_record_async(dbpath, run, allow_silence_in_state, None, True))
+    _register_name(dbpath, run)
+    return out
+
+
+async def _record_async(dbpath: Path, run: dict[str, Any], allow_silence_in_state: bool, shared_db: Any, first: bool) -> dict[str, Any]:
     from gallia.command.base import BaseCommandConfig
     from gallia.db.handler import DBHandler
     from gallia.services.uds.core import service
@@ -126,7 +172,7 @@ def record(dbpath: Path, run: dict[str, Any], allow_silence_in_state: bool) -> d
 
     out: dict[str, Any] = {"transcript": [], "excluded": 0, "state_mismatch": None}
 
-    async def go() -> None:
+    if True:
         from datetime import UTC, datetime
 
         server = make_recorded_ecu(run)
@@ -135,10 +181,12 @@ def record(dbpath: Path, run: dict[str, Any], allow_silence_in_state: bool) -> d
         wire: list[tuple[int, bytes, bytes | None]] = []
         tr = MemECUTransport(server, wire, 100000)
         tr.latency = 0.0  # an exchange takes at least one scheduling round: other users of the client can queue up behind it
-        db = DBHandler(dbpath)
-        await db.connect()
+        db = shared_db if shared_db is not None else DBHandler(dbpath)
+        if shared_db is None:
+            await db.connect()
         try:
-            await db.insert_run_meta("vf.c12", BaseCommandConfig(), datetime.now(UTC).astimezone(), None)
+            if shared_db is None or first:
+                await db.insert_run_meta("vf.c12", BaseCommandConfig(), datetime.now(UTC).astimezone(), None)
             await db.insert_scan_run(run["url"])
             await db.insert_scan_run_properties_pre(Props(**run["props"]))  # type: ignore[arg-type]
             ecu = ECU(tr, timeout=0.02, max_retry=0)  # type: ignore[arg-type]
@@ -186,17 +234,9 @@ def record(dbpath: Path, run: dict[str, Any], allow_silence_in_state: bool) -> d
                 prev = b
                 last_seed = vecu.next_last_seed(last_seed, b, reply)
         finally:
-            await db.disconnect()
+            if shared_db is None:
+                await db.disconnect()
             await server.teardown()
-
-    asyncio.run(go())
-    # register the ECU name for this address, as the documentation of `vecu db` prescribes
-    con = sqlite3.connect(dbpath)
-    if con.execute("SELECT count(*) FROM ecu WHERE name = ?", (run["name"],)).fetchone()[0] == 0:
-        con.execute("INSERT INTO ecu(name) VALUES(?)", (run["name"],))
-    con.execute("UPDATE address SET ecu = (SELECT id FROM ecu WHERE name = ?) WHERE url = ?", (run["name"], run["url"]))
-    con.commit()
-    con.close()
     return out
 
 
@@ -230,11 +270,17 @@ def check(case: dict[str, Any]) -> list[tuple[str, str]]:
     try:
         db = d / "db.sqlite"
         recs = []
-        for run in case["runs"]:
+        if case.get("share_handler"):
             try:
-                recs.append(record(db, run, case.get("allow_silence_in_state", False)))
+                recs = record_shared(db, case["runs"], case.get("allow_silence_in_state", False))
             except Exception as e:  # noqa: BLE001
                 return [(f"C12/record-raises/{type(e).__name__}", f"{type(e).__name__}: {e}")]
+        else:
+            for run in case["runs"]:
+                try:
+                    recs.append(record(db, run, case.get("allow_silence_in_state", False)))
+                except Exception as e:  # noqa: BLE001
+                    return [(f"C12/record-raises/{type(e).__name__}", f"{type(e).__name__}: {e}")]
         t = case["target"]
         run, rec = case["runs"][t], recs[t]
         sel = case["select"]
